@@ -26,6 +26,12 @@ CHECKS["C05"] = {
     "technique": "symbolic execution (CrossHair/z3) of dds_hash under an interning hash model; all pairs of value skeletons with symbolic leaves",
 }
 
+CHECKS["C08"] = {
+    "text": "Symbolic execution of the real MemoryStore / LocalFileStore / LRUCacheStore and built-in codecs, the local store running over a POSIX file-system model that is validated differentially against the real OS on every run: (1) every operation sequence of length 3 (quick) / 4 (thorough) over 2 keys and 2 paths incl. reopen, in lock step with a dictionary model, blob value symbolic; (2) for every pair of paths of 1..3 segments over a confusable alphabet (a, b, ab, '..', '.', dots, space, non-ASCII): committed to different keys each resolves to its own key and every created node lies inside the data directory; (3) DDSPathUtils.create accepts exactly absolute paths for every short string. Counterexamples are replayed on the real OS in a temporary directory.",
+    "design_ref": "DESIGN.md 5-C08",
+    "technique": "symbolic execution (CrossHair/z3) of the real store classes over a file-system model, lock step against a dictionary model; path pairs chosen by the solver",
+}
+
 NOT_APPLICABLE = {}
 
 
